@@ -582,7 +582,8 @@ def run_live_outer(res, ast, rule="LIVE-OUTER"):
     the abstract value of self.current_start is `saved` (entry value) or the name it was last assigned from."""
     import pm
     res.rule(rule, "bc::CodeGen::emit_block saves self.current_start on entry, restores it after a nested block, and the live-range extension at a loop's "
-             "end compares creation times with that saved (enclosing-loop) start, not with the start of the loop being closed", floor=3, what="obligations")
+             "end compares creation times with that saved (enclosing-loop) start, not with the start of the loop being closed; range_extend reads the previous last_use "
+             "before overwriting it", floor=4, what="obligations")
     try:
         fn = ast.fn(BC, "emit_block")["node"]
     except Missing as m:
@@ -648,6 +649,25 @@ def run_live_outer(res, ast, rule="LIVE-OUTER"):
             okc, why = False, f"the threshold is `{ast.src1(BC, t_)}`, not the start of the enclosing loop saved in `{P}`"
     res.check(okc, rule, f"{BC}|emit_block|threshold", where(BC, cmps[0][0], "emit_block") if cmps else w,
               "the live-range extension at the end of a loop must leave alone exactly the values created before the enclosing loop's start: " + why)
+    # range_extend decides "first access inside the current loop" from the value's previous last_use: that read must come before the
+    # call that overwrites last_use (read-before-write order; a write first makes the test always false and nothing is kept live over the back edge)
+    try:
+        rx = ast.fn(BC, "range_extend")["node"]
+        writers = {f_["name"] for f_ in ast.find_fns(BC) if f_["node"].get("body") and not is_test_item(f_) and
+                   any(strip_paren(a_["left"])["t"] == "Field" and strip_paren(a_["left"])["member"] == "last_use" for a_ in walk_t(f_["node"]["body"], "Assign"))}
+        writers.discard("range_extend")
+        st_ = rx["body"]["stmts"]
+        first_write = next((i_ for i_, s_ in enumerate(st_) if any(m_["method"] in writers for m_ in walk_t(s_, "MethodCall"))
+                            or any(strip_paren(a_["left"])["t"] == "Field" and strip_paren(a_["left"])["member"] == "last_use" for a_ in walk_t(s_, "Assign"))), None)
+        reads = [i_ for i_, s_ in enumerate(st_) if any(n_.get("t") == "Field" and n_.get("member") == "last_use" for n_ in walk(s_))
+                 and not any(strip_paren(a_["left"])["t"] == "Field" and strip_paren(a_["left"])["member"] == "last_use" for a_ in walk_t(s_, "Assign"))]
+        pushes = [i_ for i_, s_ in enumerate(st_) if any(m_["method"] == "push" and "outer_accessed" in T(ast, m_["receiver"]) for m_ in walk_t(s_, "MethodCall"))]
+        oko = bool(reads) and bool(pushes) and first_write is not None and all(r_ < first_write for r_ in reads)
+        res.check(oko, rule, f"{BC}|range_extend|order", where(BC, rx, "range_extend"),
+                  "range_extend must test the value's previous last_use (first access inside the current loop -> outer_accessed) before it extends the range; "
+                  f"found the read at statement {reads} and the first write at statement {first_write}")
+    except Missing as m_:
+        res.missing(rule, m_)
     # restore after the nested block, on the path that changed it
     restores = [a for a in assigns if path_name(strip_paren(a["right"])) == P]
     sets = [a for a in assigns if path_name(strip_paren(a["right"])) != P]
